@@ -506,3 +506,61 @@ package shwap
 //@   requires 0 <= edsSize && edsSize <= 65536
 //@   requires 0 <= rngid.From && rngid.From < rngid.To && rngid.To <= 4294967295
 //@   ensures result == (rngid.To - rngid.From) * 512 && result > 0
+
+// ---------------------------------------------------------------------------------------------
+// C01 / C10: rows. rowBoundTo(r, root, idx): the NMT root of r's extended shares, built for row idx,
+// equals root (the tree construction is rsmt2d/nmt code and assumed; the comparison, the choice of
+// the root and every structural check are verified).
+//@ pure func rowBoundTo(r Row, root []byte, idx int) bool
+
+//@ func (*Row).verifyInclusion
+//@   property C01
+//@   trusted
+//@   requires r != nil && 0 <= idx && idx < len(roots.RowRoots)
+//@   ensures err == nil ==> rowBoundTo(deref(r), roots.RowRoots[idx], idx)
+
+//@ func (Row).IsEmpty
+//@   property C10
+//@   ensures result <==> len(r.shares) == 0
+
+//@ func (*Row).Verify
+//@   property C01 C10
+//@   requires r != nil && 0 <= idx && idx < len(roots.RowRoots)
+//@   ensures err == nil ==> len(r.shares) != 0 && (r.side == Left || r.side == Right || r.side == Both)
+//@   ensures err == nil ==> len(r.shares) == (r.side == Both ? len(roots.RowRoots) : len(roots.RowRoots) / 2)
+//@   ensures err == nil ==> rowBoundTo(deref(r), roots.RowRoots[idx], idx)
+
+//@ extern (github.com/celestiaorg/go-square/v4/share.Namespace).Equals
+//@   ensures result <==> bytesEq(n.data, n2.data)
+
+//@ func RowNamespaceDataIDFromBinary
+//@   property C18 C10
+//@   nopanic
+//@   untrusted data
+//@   ensures err == nil ==> len(data) == RowNamespaceDataIDSize && result.RowID.EdsID.height == u64be(data, 0) && result.RowID.RowIndex == u16be(data, 8) && result.RowID.EdsID.height != 0
+//@   ensures err == nil ==> result.DataNamespace.data == data[10:]
+
+//@ func (*RowNamespaceDataID).Equals
+//@   property C18 C10
+//@   ensures result <==> (rndid.RowID.EdsID.height == other.RowID.EdsID.height && rndid.RowID.RowIndex == other.RowID.RowIndex && bytesEq(rndid.DataNamespace.data, other.DataNamespace.data))
+
+//@ func (RowNamespaceData).IsEmpty
+//@   property C10
+//@   ensures result <==> rnd.Proof == nil
+
+//@ func (*RangeNamespaceData).IsEmpty
+//@   property C10
+//@   ensures result <==> (rngdata == nil || (rngdata.Shares == nil && rngdata.FirstIncompleteRowProof == nil && rngdata.LastIncompleteRowProof == nil))
+
+// The public inclusion check is the share verifier applied to the container's own rows.
+//@ func (*RangeNamespaceData).VerifyInclusion
+//@   property C01 C10
+//@   requires rngdata != nil && odsSize > 0
+//@   ensures err == nil ==> len(rngdata.Shares) == to.Row - from.Row + 1 && len(roots) == len(rngdata.Shares) && len(rngdata.Shares) > 0
+//@   ensures err == nil ==> forall i int :: 0 <= i && i < len(rngdata.Shares) ==> len(rngdata.Shares[i]) == rowLen(i, len(rngdata.Shares), from.Col, to.Col, odsSize)
+//@   ensures err == nil && rngdata.FirstIncompleteRowProof != nil ==> deref(rngdata.FirstIncompleteRowProof).start == from.Col
+//@   ensures err == nil && rngdata.LastIncompleteRowProof != nil ==> deref(rngdata.LastIncompleteRowProof).end == to.Col + 1
+
+//@ func (*RangeNamespaceDataIDV0).Equals
+//@   property C18 C10
+//@   ensures result <==> (rngid.RangeNamespaceDataID.EdsID.height == other.RangeNamespaceDataID.EdsID.height && rngid.RangeNamespaceDataID.From == other.RangeNamespaceDataID.From && rngid.RangeNamespaceDataID.To == other.RangeNamespaceDataID.To)
